@@ -332,6 +332,9 @@ def predX (multi : Bool) (req obs : List String) : Option Bool :=
     match parseObsX obs with
     | some (st, out, evs) =>
       pure (if multi then FuModel.Pred.C08.predMulti r.follow r.roots r.args script st out evs normDir
+            -- (a `;` action followed by a `+` action: generated with every command succeeding)
+            else if !(FuModel.Pred.C08.allMulti r.args).isEmpty && script.all (· == 0) then
+              FuModel.Pred.C08.predMixed r.follow r.roots r.args st out evs normDir
             else FuModel.Pred.C08.predSingle r.follow r.roots r.args script st out evs normDir)
     | none => pure false
   | _ => none
